@@ -332,7 +332,8 @@ func TestC10Replay(t *testing.T) {
 // C11: Pos / EndPos / Tokens describe exactly the consumed text
 
 const c11Rule = "generated grammars whose productions carry Pos/EndPos/Tokens (plain fields, embedded mixin, convertible position type) " +
-	"x accepted inputs with generated elided runs; oracle: (a) model-free invariants over the AST (every Tokens run is a contiguous " +
+	"x accepted inputs with generated elided runs, plus a static family of three mutually recursive named types parsed through parsers derived for its " +
+	"inner productions (ParserForProduction) before or after the grammar's own parser was used; oracle: (a) model-free invariants over the AST (every Tokens run is a contiguous " +
 	"slice of Parser.Lex output, child run inside parent run, sibling runs disjoint, slice elements in input order, root run ends at the " +
 	"last consumed token, Pos <= EndPos) and (b) exact values from the reference derivation (Tokens = raw[start:end], Pos = first " +
 	"non-elided token, EndPos = position of raw[end]); non-trivial = some node was entered after an abandoned attempt or has an elided " +
